@@ -30,6 +30,8 @@ type atk struct {
 	root   *etree.Element
 	signer *sim.Cert
 	notes  []string
+	// mustReject, when set by a transformer, names a reason why the document must not be accepted at all
+	mustReject string
 }
 
 func (a *atk) note(format string, v ...any) { a.notes = append(a.notes, fmt.Sprintf(format, v...)) }
@@ -151,6 +153,38 @@ func c01Transformers() []transformer {
 				return false
 			}
 			sim.ReplaceChild(ref, a.evil(a.r.IntN(5), a.r.IntN(3), ref))
+			return true
+		}},
+		{"encrypt-wrapper-around-signed", func(a *atk) bool {
+			// a genuine signed assertion put inside foreign wrapper elements, the WRAPPER encrypted to the SP: after
+			// decryption the assertion does not sit directly under the Response
+			s := signedAssertion(a)
+			if s == nil || a.root == s {
+				return false
+			}
+			var payload *etree.Element
+			switch a.r.IntN(3) {
+			case 0:
+				payload = sim.Wrapper("x", "urn:x", "Outer", sim.Wrapper("x", "urn:x", "Inner", s.Copy()))
+			case 1:
+				wt := wrapperTags[a.r.IntN(len(wrapperTags))]
+				payload = sim.Wrapper(wt[0], wt[1], wt[2], s.Copy())
+			default:
+				payload = a.evil(0, a.r.IntN(3), s)
+				payload.AddChild(sim.Wrapper("saml", sim.NSA, "Advice", s.Copy()))
+			}
+			x, err := sim.EncryptedAssertionXML(&sim.EncSpec{DataAlg: pick(a.r, sim.DataAlgs), KeyAlg: sim.RSAOAEP, To: a.w.SPEnc}, []byte(sim.ElementString(payload)), nil, nil)
+			if err != nil {
+				return false
+			}
+			d, err := sim.ParseDoc(x)
+			if err != nil {
+				return false
+			}
+			sim.ReplaceChild(s, d.Root().Copy())
+			if sim.SigOf(a.root) == nil {
+				a.mustReject = "the encrypted payload's root is a wrapper, the signed assertion inside it is not a direct child"
+			}
 			return true
 		}},
 		{"evil-wraps-signed", func(a *atk) bool {
@@ -788,6 +822,10 @@ func runC01(c *mon.Ctx) {
 		if aerr != nil {
 			ai = nil
 		}
+		if a.mustReject != "" && !resp.SignatureValidated {
+			cs.Violation("relocated-assertion-honoured", "accepted although %s (%d assertion(s) returned)", a.mustReject, len(resp.Assertions))
+			return
+		}
 		if key, msg := c01Oracle(g, resp, ai); key != "" {
 			cs.Violation(key, "%s", msg)
 			return
@@ -884,6 +922,67 @@ func runC01(c *mon.Ctx) {
 	// key roll-over on a long-lived SP: content signed with a certificate that left the store is no longer honoured
 	rb := BaseTime(c.Seed)
 	runStoreRotation(c, c.N(200, 5000), rb, rb.Add(2*time.Hour), []string{"sso-resp", "sso-assert"})
+	// ---- documents around the dependency's per-walk element budget: whatever a walk does when it gives up, an
+	// unsigned assertion next to a large signed one is never let through ----
+	nob := c.N(48, 600)
+	for k := 0; k < nob; k++ {
+		cs := c.Begin("over-budget", k)
+		if cs == nil {
+			continue
+		}
+		r := cs.Rand()
+		nvals := []int{470, 520, 985, 1010, 1100, 2500}[k%6]
+		rec := sim.GenuineResponse(w.Env, 1+r.IntN(2))
+		a0 := rec.Assertions[0]
+		a0.HasAttrStmt = true
+		var vals []sim.AttrVal
+		for i := 0; i < nvals; i++ {
+			vals = append(vals, sim.AttrVal{Value: fmt.Sprintf("group-%d", i)})
+		}
+		a0.Attrs = []sim.AttrRec{{Name: sim.S("memberOf"), Values: vals}}
+		signer := w.IdP[2]
+		for _, a := range rec.Assertions {
+			a.Sig = sim.DefaultSig(signer.Key, signer)
+			a.Sig.Place = []int{0, 0, 1, 2}[r.IntN(4)]
+		}
+		xml, err := sim.BuildResponse(rec, sim.PlainStyle())
+		if err != nil {
+			cs.Inconclusive("simulator-error")
+			continue
+		}
+		doc, err := sim.ParseDoc(xml)
+		if err != nil {
+			cs.Inconclusive("simulator-error")
+			continue
+		}
+		a := &atk{r: r, w: w, doc: doc, root: doc.Root(), signer: signer}
+		ev := a.evil([]int{0, 0, 1, 3}[r.IntN(4)], r.IntN(2), nil)
+		where := r.IntN(3)
+		switch where {
+		case 0:
+			a.root.AddChild(ev)
+		case 1:
+			sim.InsertRelative(a.assertions()[0], ev, true)
+		default:
+			sim.InsertRelative(a.assertions()[0], ev, false)
+		}
+		out := sim.DocString(doc)
+		cs.Desc("values=%d assertions=%d evil-position=%d %s", nvals, len(rec.Assertions), where, strings.Join(a.notes, ","))
+		cs.Input([]byte(trunc(out, 4096)))
+		sp, _, _ := NewSP(w.Now, signer)
+		var resp *types.Response
+		var verr error
+		pv, stack := mon.Guard(func() { resp, verr = sp.ValidateEncodedResponse(sim.Encode(out, sim.RawLevel)) })
+		if pv != nil {
+			cs.Violation("panic", "validation panicked: %v\n%s", pv, trunc(stack, 1200))
+			continue
+		}
+		cs.Nontrivial(cs.Description())
+		cs.Outcome(errStage(verr))
+		if verr == nil {
+			cs.Violation("carried-assertion-not-verified", "an unsigned Response carrying %d signed assertion(s) (%d attribute values) and one assertion the IdP never signed was accepted; %d assertion(s) returned", len(rec.Assertions), nvals, len(resp.Assertions))
+		}
+	}
 
 	// genuine control: the unmodified base document must be accepted by the same oracle path
 	for k := 0; k < c.N(200, 5000); k++ {
